@@ -300,6 +300,10 @@ class Check(common.Check):
             # server's maxLogins, which differs from the client's own options.max_logins
             case['login_max_logins'] = reply
             case['client_id'] = rng.randrange(reply)
+        if rng.random() < 0.08:
+            # ids at and around the boundary of the valid range are refused
+            mlf = reply if reply is not None else ml0
+            case['client_id'] = rng.choice([mlf, mlf, mlf + 1, -1])
         ops = []
         for _ in range(rng.randint(3, 40)):
             r = rng.random()
@@ -378,6 +382,9 @@ class Check(common.Check):
         eff = dict(case)
         if case.get('login_max_logins') is not None:     # the value of the login reply is the one in force
             eff['max_logins'] = case['login_max_logins']
+        if not 0 <= case['client_id'] < eff['max_logins']:
+            # an invalid id is refused: the server keeps id 0 and the allocators it was built with
+            eff['client_id'], eff['max_logins'] = 0, case['max_logins']
         vals = [eff[f] for f in ('control_buses', 'audio_buses', 'buffers', 'input_channels',
                                  'output_channels', 'max_logins', 'reserved_control_buses',
                                  'reserved_audio_buses', 'reserved_buffers', 'client_id',
@@ -596,10 +603,14 @@ class Check(common.Check):
 
     def oracle_srv(self, case, out):
         if out and out[0].startswith('server '):
-            return {'what': out[0], 'signature': 'srv:server'}
+            return {'what': f'building the server / setting client id {case["client_id"]} (options.max_logins '
+                            f'{case["max_logins"]}, login reply {case.get("login_max_logins")}) raised: {out[0]}; an invalid '
+                            f'id must be refused and leave every allocator as it was', 'signature': 'srv:server'}
         ml, c = case['max_logins'], case['client_id']
         if case.get('login_max_logins') is not None:
             ml = case['login_max_logins']       # the server's value, from the login reply
+        if not 0 <= c < ml:
+            c, ml = 0, case['max_logins']       # refused id: everything stays as it was (id 0, own options)
         io = case['input_channels'] + case['output_channels']
         # the allocators must be the partition of (client id, maxLogins in force)
         want = []
